@@ -3,6 +3,7 @@ import copy
 import datetime as dt
 
 import numpy as np
+import pandas as pd
 
 from ..config import cfg_hash, describe
 from ..engine import Result
@@ -243,6 +244,74 @@ class ConfiguredCrop:
             return self._ov[key]
         v = self._cat.get(key, self.DEFAULTS.get(key))
         return self.DEFAULTS.get(key) if v is None else v
+
+
+def rejection_justified(cfg, label):
+    """Is the documented rejection `label` warranted by the CONFIGURATION (reference computation, independent of
+    the library)?  True / False / None (cannot be decided here: SwitchGDD conversions, borderline sums)."""
+    import datetime as _dt
+
+    from ..config import PRISTINE_CROP_PARAMS, apply_weather_xform, build_weather
+
+    def day(sv):
+        y, m, d = [int(x) for x in sv.replace("-", "/").split("/")]
+        return _dt.date(y, m, d)
+
+    try:
+        start, end = day(cfg["start"]), day(cfg["end"])
+    except Exception:
+        return None
+    if label == "gt_580_years":
+        return (end.year - start.year) > 580
+    if label == "weather_coverage":
+        df = apply_weather_xform(build_weather(cfg["weather"]), cfg.get("weather_xform"))
+        d = pd.to_datetime(df.Date)
+        return bool(d.iloc[0].date() > start or d.iloc[-1].date() < end)
+    if label not in ("too_few_gdd", "more_than_a_year"):
+        return None
+    cc = ConfiguredCrop(cfg)
+    if int(cc.get("SwitchGDD") or 0) == 1:
+        return None
+    if int(PRISTINE_CROP_PARAMS[cfg["crop"]["name"]]["CalendarType"]) != 2:
+        return False            # a calendar-day crop needs no degree days at all
+    method, tb, tu, mat = int(cc.get("GDDmethod")), float(cc.get("Tbase")), float(cc.get("Tupp")), float(cc.get("Maturity"))
+    df = apply_weather_xform(build_weather(cfg["weather"]), cfg.get("weather_xform"))
+    dd = pd.to_datetime(df.Date).dt.date.values
+    tmin, tmax = df["MinTemp"].values.astype(float), df["MaxTemp"].values.astype(float)
+    if method == 1:
+        g = np.clip((tmax + tmin) / 2.0, tb, tu) - tb
+    elif method == 2:
+        g = (np.clip(tmax, tb, tu) + np.clip(tmin, tb, tu)) / 2.0 - tb
+    else:
+        g = np.maximum((np.clip(tmax, tb, tu) + np.minimum(tmin, tu)) / 2.0, tb) - tb
+    pm, pd_ = [int(x) for x in cfg["crop"]["planting"].split("/")]
+    y = start.year
+    try:
+        p0 = _dt.date(y, pm, pd_)
+    except ValueError:
+        return None
+    if p0 < start:
+        y += 1
+    borderline = False
+    while True:
+        try:
+            pl = _dt.date(y, pm, pd_)
+        except ValueError:
+            return None
+        if pl > end:
+            break
+        sel = (dd >= pl) & (dd <= end)
+        cum = np.cumsum(g[sel])
+        if len(cum) == 0:
+            return None
+        if abs(cum[-1] - mat) <= 1e-6 * max(1.0, mat):
+            borderline = True
+        elif label == "too_few_gdd" and cum[-1] <= mat:
+            return True
+        elif label == "more_than_a_year" and cum[-1] > mat and int(np.argmax(cum > mat)) + 1 >= 365:
+            return True
+        y += 1
+    return None if borderline else False
 
 
 def configured_irrigation(cfg):
